@@ -244,9 +244,9 @@ def seeds_cover(B, dump, seeds_by_node, exactly_once=True):
     return parts
 
 
-def candidates_cover(B, dump, nid, cands):
+def candidates_cover(B, dump, nid, cands, excluded=()):
     """C08: candidates are total states in the node space and every attractor of the node that is not inside
-    one of its successors contains a candidate"""
+    one of its successors (nor inside one of the `excluded` trap spaces, see C08 on skip nodes) contains a candidate"""
     nodes = node_by_id(dump)
     oe = out_edges(dump)
     S = nodes[nid]["space"]
@@ -259,7 +259,7 @@ def candidates_cover(B, dump, nid, cands):
         parts.append((f"candidate {c} of node {nid} is a total state in the node space", B.const(tot)))
         if tot:
             cs.append(c)
-    kids = [nodes[e["c"]]["space"] for e in oe[nid]]
+    kids = [nodes[e["c"]]["space"] for e in oe[nid]] + [tuple(e) for e in excluded]
     for x in states_in(B, S):
         if any(in_space(x, k) for k in kids):
             continue
